@@ -101,7 +101,10 @@ impl Scenario for Batch {
         let separate = p["mode"] == "separate";
         let stall = p["stall"] == true;
         if stall {
-            cfg.stall_after = Some(400);
+            // the handshake, the two Channel.Open and the two Basic.Consume fit (296 bytes);
+            // what the batch makes the client write meets a transport that takes 4 more bytes
+            // and then nothing until it is granted: the closing state spans several wake-ups
+            cfg.stall_after = Some(300);
         }
         Built {
             broker: Box::new(broker),
@@ -152,6 +155,9 @@ impl Scenario for Batch {
                     }
                 });
                 let a1 = ctx.spawn("A1", move |ctx| {
+                    let cons = ch1.basic_consume("q1", amiquip::ConsumerOptions::default());
+                    let cons_rx = cons.as_ref().ok().map(|c| c.receiver().clone());
+                    std::mem::forget(cons);
                     while let Ok(op) = ctx.recv("go", &go_a1) {
                         if op.contains("publish") {
                             let r = ch1.basic_publish("", Publish::new(b"abc", "k"));
@@ -166,8 +172,14 @@ impl Scenario for Batch {
                     ctx.log(format!("late -> {}", res(&r)));
                     let r = ch1.close();
                     ctx.log(format!("chclose -> {}", res(&r)));
+                    if let Some(rx) = &cons_rx {
+                        ctx.log(format!("consumer saw {:?}", rx.try_iter().map(|m| consumer_msg_name(&m)).collect::<Vec<_>>()));
+                    }
                 });
                 let a2 = ctx.spawn("A2", move |ctx| {
+                    let cons = ch2.basic_consume("q2", amiquip::ConsumerOptions::default());
+                    let cons_rx = cons.as_ref().ok().map(|c| c.receiver().clone());
+                    std::mem::forget(cons);
                     let op = ctx.recv("go", &go_a2).unwrap_or_default();
                     if op == "A2" {
                         let r = ch2.queue_purge("q");
@@ -178,6 +190,9 @@ impl Scenario for Batch {
                     ctx.log(format!("late -> {}", res(&r)));
                     let r = ch2.close();
                     ctx.log(format!("chclose -> {}", res(&r)));
+                    if let Some(rx) = &cons_rx {
+                        ctx.log(format!("consumer saw {:?}", rx.try_iter().map(|m| consumer_msg_name(&m)).collect::<Vec<_>>()));
+                    }
                 });
                 // ---- the batch
                 ctx.wait_io_quiet();
